@@ -400,6 +400,15 @@ class Program:
                             out.append(b)
             if out:
                 return out
+            # same comparison with module qualifiers of ambiguous names removed on both sides (`[link_impl::Link]` vs `[Link]`)
+            dq = lambda z: re.sub(r'\b\w+::', '', z)
+            for f, b in self.by_id.items():
+                if f.startswith('<') and f.endswith('>::' + meth):
+                    mm = re.match(r'<(.*) as ([^>]*?)(?:<.*>)?>::' + re.escape(meth) + '$', f)
+                    if mm and re.sub(r'<.*', '', mm.group(2)) == trn and dq(_nospace(mm.group(1))) == dq(q):
+                        out.append(b)
+            if out:
+                return out
             # derive-generated trait impls
             for f, b in self.by_id.items():
                 if f == '%s::derive(%s)::%s' % (q, trn, meth):
